@@ -1814,8 +1814,16 @@ def rule_dead(ctx):
                     flag = bt.left.id
                     resets = [n for n in mon.body if isinstance(n, ast.Assign) and isinstance(n.targets[0], ast.Name) and n.targets[0].id == flag
                               and const_int(n.value) == 0]
-                    sets = [n for f in top_fors for n in ast.walk(f) if isinstance(n, ast.AugAssign) and isinstance(n.op, ast.Add)
-                            and isinstance(n.target, ast.Name) and n.target.id == flag and const_int(n.value) == 1]
+                    def _inc1(n):
+                        if isinstance(n, ast.AugAssign) and isinstance(n.op, ast.Add) and isinstance(n.target, ast.Name) and n.target.id == flag:
+                            return const_int(n.value) == 1
+                        if isinstance(n, ast.Assign) and len(n.targets) == 1 and isinstance(n.targets[0], ast.Name) and n.targets[0].id == flag \
+                                and isinstance(n.value, ast.BinOp) and isinstance(n.value.op, ast.Add):
+                            l_, r_ = n.value.left, n.value.right
+                            return (isinstance(l_, ast.Name) and l_.id == flag and const_int(r_) == 1) or \
+                                (isinstance(r_, ast.Name) and r_.id == flag and const_int(l_) == 1)
+                        return False
+                    sets = [n for f in top_fors for n in ast.walk(f) if _inc1(n)]
                     others = [n for n in ast.walk(mon) if isinstance(n, (ast.Assign, ast.AugAssign)) and n not in resets and n not in sets
                               and any(isinstance(x, ast.Name) and x.id == flag and isinstance(x.ctx, ast.Store) for x in ast.walk(n))]
                     if others:
